@@ -28,6 +28,7 @@ func init() {
 
 func runC04(c *eng.Ctx) {
 	p := c.P
+	compactionOutputClaimedUntilInstalled(c)
 
 	// ---- 1. registration rides the flush commit ---------------------------------------------------------------------------
 	c.Rule("ORDER", sfT+".Commit{rollup registration}", func() {
